@@ -1079,4 +1079,252 @@ theorem inv_reachable {chk : Nat → Nat → Bool} {v0 : Nat} (h0 : chk 0 v0 = t
   obtain ⟨ls, hls⟩ := h
   exact inv_run chk ls _ _ (inv_init chk v0 h0) hls
 
+theorem hist_step (chk : Nat → Nat → Bool) (s s' : State) (l : Label)
+    (h : step chk s l = some s') :
+    s'.hist = s.hist ∨
+    ∃ t ts, l = .run t ts ∧ (s.thr t).loc.pc = .aStSeq ∧
+      s'.hist = s.hist ++ [((s.thr t).loc.ub, (s.thr t).loc.uv)] := by
+  cases l with
+  | sync t u => simp [step] at h; subst h; exact Or.inl rfl
+  | start t op =>
+    simp only [step] at h
+    split at h
+    · simp at h; subst h; exact Or.inl rfl
+    · simp at h
+  | run t ts =>
+    simp only [step] at h
+    cases hpc : (s.thr t).loc.pc <;> simp only [Local.next, hpc] at h
+    case aStSeq =>
+      simp at h; subst h
+      exact Or.inr ⟨t, ts, rfl, hpc, rfl⟩
+    case uLock =>
+      by_cases hh : s.held = none <;> simp [hh] at h
+      subst h; exact Or.inl rfl
+    case tTry =>
+      by_cases hh : s.held = none <;> simp [hh] at h <;> (subst h; exact Or.inl rfl)
+    case idle | retSnap | retBool | sPanic | aPanic => simp at h
+    case sSeq | sSeq2 | aSeq =>
+      cases hm : (s.mem .seq)[ts]? <;> simp only [hm] at h
+      · simp at h
+      · split at h <;> simp at h; subst h; exact Or.inl rfl
+    case sV | aV =>
+      cases hm : (s.mem (.v (odd (s.thr t).loc.sq)))[ts]? <;> simp only [hm] at h
+      · simp at h
+      · split at h <;> simp at h; subst h; exact Or.inl rfl
+    case sB | aB =>
+      cases hm : (s.mem (.b (odd (s.thr t).loc.sq)))[ts]? <;> simp only [hm] at h
+      · simp at h
+      · split at h <;> simp at h; subst h; exact Or.inl rfl
+    all_goals (simp at h; subst h; exact Or.inl rfl)
+
+theorem stale_ignored {chk : Nat → Nat → Bool} {s s' : State} (hI : Inv chk s) (t ts : Nat)
+    (hpc : (s.thr t).loc.pc = .aB)
+    (cur : Nat × Nat) (hcur : s.hist.getLast? = some cur) (hstale : (s.thr t).loc.ub < cur.1)
+    (hs : step chk s (.run t ts) = some s') :
+    (s'.thr t).loc.pc = .aUnlock false ∧ s'.mem = s.mem ∧ s'.hist = s.hist ∧
+    (s'.thr t).loc.feedUnit.pc = .retBool false := by
+  have hT := hI.t t
+  have hG := hI.g
+  have hh : s.held = some t := hT.lock.1 (by simp [hpc, Pc.inCS])
+  have hH := hI.h t hh
+  have hw := hH.wpc
+  simp only [WInv, hpc] at hw
+  have hnlen : (s.mem .seq).length = nOf s.mem + 1 := by have := hG.hpos; simp [nOf]; omega
+  have hlast : s.hist.getLast? = s.hist[nOf s.mem]? := by
+    rw [List.getLast?_eq_getElem?, hG.hlen, hnlen]; simp
+  rw [hlast] at hcur
+  simp only [step, Local.next, hpc] at hs
+  cases hm : (s.mem (.b (odd (s.thr t).loc.sq)))[ts]? with
+  | none => simp [hm] at hs
+  | some m =>
+    simp only [hm] at hs
+    split at hs
+    · rename_i hv
+      simp at hs; subst hs
+      have htslt : ts < (s.mem (.b (odd (s.thr t).loc.sq))).length := (List.getElem?_eq_some_iff.mp hm).1
+      have hcov := hH.cover (.b (odd (s.thr t).loc.sq))
+      have hlen := hH.lenb (odd (s.thr t).loc.sq)
+      simp only [hpc, wb, Bool.false_eq_true, false_and, if_false, Nat.add_zero] at hlen
+      rw [bit_odd, hw] at hlen
+      have htseq : ts = tsOf (s.thr t).loc.sq := by
+        rw [hw] at htslt hcov hv ⊢; unfold tsOf; omega
+      have := (hG.pairs _ cur hcur).1
+      rw [← hw, ← htseq, valAt_of_get hm] at this
+      simp at this
+      have hlt : (s.thr t).loc.ub < m.val := by rw [this]; exact hstale
+      simp [Local.feedLoad, hpc, hlt, Local.feedUnit]
+    · simp at hs
+
+theorem try_nonblocking (chk : Nat → Nat → Bool) (s : State) (t ts : Nat) (hpc : (s.thr t).loc.pc = .tTry) :
+    ∃ s', step chk s (.run t ts) = some s' ∧
+      (s.held ≠ none → (s'.thr t).loc.pc = .retBool false ∧ s'.mem = s.mem ∧ s'.held = s.held ∧
+        s'.hist = s.hist ∧ (s'.thr t).view = (s.thr t).view) := by
+  simp only [step, Local.next, hpc]
+  by_cases hh : s.held = none
+  · simp [hh]
+  · simp [hh, Local.feedLock, hpc]
+
+/-- A step is disabled only for: no operation in progress; `update`'s `lock()` while the lock is
+held; a load asked to read a timestamp outside `[view, last]`. -/
+theorem step_none_iff (chk : Nat → Nat → Bool) (s : State) (t ts : Nat) :
+    step chk s (.run t ts) = none ↔
+      ((s.thr t).loc.next = .none ∨ ((s.thr t).loc.pc = .uLock ∧ s.held ≠ none) ∨
+       ∃ l o, (s.thr t).loc.next = .load l o ∧ ¬ ((s.thr t).view l ≤ ts ∧ ts < (s.mem l).length)) := by
+  simp only [step]
+  cases hnx : (s.thr t).loc.next with
+  | load l o =>
+    have hpc : (s.thr t).loc.pc ≠ .uLock := by
+      intro h; simp [Local.next, h] at hnx
+    cases hm : (s.mem l)[ts]? with
+    | none =>
+      have : ¬ ts < (s.mem l).length := by
+        intro h; rw [List.getElem?_eq_getElem h] at hm; simp at hm
+      simp [hm, hpc]; intro _; omega
+    | some m =>
+      have : ts < (s.mem l).length := (List.getElem?_eq_some_iff.mp hm).1
+      by_cases hv : (s.thr t).view l ≤ ts <;> simp [hv, hpc, this]
+  | store l o v => simp; intro h; simp [Local.next, h] at hnx
+  | lock =>
+    have hpc := (next_lock_iff _).1 hnx
+    by_cases hh : s.held = none <;> simp [hh, hpc]
+  | tryLock =>
+    have hpc : (s.thr t).loc.pc ≠ .uLock := by intro h; simp [Local.next, h] at hnx
+    by_cases hh : s.held = none <;> simp [hh, hpc]
+  | unlock p => simp; intro h; simp [Local.next, h] at hnx
+  | clearPoison => simp; intro h; simp [Local.next, h] at hnx
+  | none => simp
+
+/-- Own steps a reader still needs, at most, when everybody else is frozen: three per iteration,
+and every retry moves `sq` to a strictly newer sequence message. -/
+def soloMeasure (s : State) (t : Nat) : Nat :=
+  let th := s.thr t
+  match th.loc.pc with
+  | .sSeq => 3 * (nOf s.mem - th.view .seq) + 4
+  | .sV => 3 * (nOf s.mem - th.loc.sq) + 3
+  | .sB => 3 * (nOf s.mem - th.loc.sq) + 2
+  | .sSeq2 => 3 * (nOf s.mem - th.loc.sq) + 1
+  | _ => 0
+
+theorem soloMeasure_pos {s : State} {t : Nat} (h : (s.thr t).loc.pc.inSnap = true) : 0 < soloMeasure s t := by
+  simp only [soloMeasure]
+  revert h; cases (s.thr t).loc.pc <;> simp [Pc.inSnap]
+
+/-- Every enabled step of a reader strictly decreases the measure, leaves memory alone, and
+either returns or stays inside `snapshot`. -/
+theorem solo_step {chk : Nat → Nat → Bool} {s s' : State} (hI : Inv chk s) (t ts : Nat)
+    (hpc : (s.thr t).loc.pc.inSnap = true) (hs : step chk s (.run t ts) = some s') :
+    s'.mem = s.mem ∧ soloMeasure s' t < soloMeasure s t ∧
+    ((s'.thr t).loc.pc = .retSnap ∨ (s'.thr t).loc.pc.inSnap = true) := by
+  have hI' := inv_step chk s s' _ hI hs
+  have hT := hI.t t
+  have hG := hI.g
+  have hrd := hT.rd
+  have hnp := (hI'.t t).rd
+  simp only [step] at hs
+  simp only [soloMeasure]
+  cases hp : (s.thr t).loc.pc <;> simp [hp, Pc.inSnap] at hpc <;> simp only [Local.next, hp] at hs
+  case sSeq =>
+    cases hm : (s.mem .seq)[ts]? <;> simp only [hm] at hs
+    · simp at hs
+    · split at hs <;> simp at hs
+      subst hs
+      rename_i m hv
+      have := hG.seqval ts m hm
+      have hlt : ts < (s.mem .seq).length := (List.getElem?_eq_some_iff.mp hm).1
+      simp [Local.feedLoad, hp, this, Pc.inSnap, nOf]; omega
+  case sV =>
+    cases hm : (s.mem (.v (odd (s.thr t).loc.sq)))[ts]? <;> simp only [hm] at hs
+    · simp at hs
+    · split at hs <;> simp at hs
+      subst hs
+      simp [Local.feedLoad, hp, Pc.inSnap]
+  case sB =>
+    cases hm : (s.mem (.b (odd (s.thr t).loc.sq)))[ts]? <;> simp only [hm] at hs
+    · simp at hs
+    · split at hs <;> simp at hs
+      subst hs
+      simp [Local.feedLoad, hp, Pc.inSnap]
+  case sSeq2 =>
+    cases hm : (s.mem .seq)[ts]? <;> simp only [hm] at hs
+    · simp at hs
+    · split at hs <;> simp at hs
+      subst hs
+      rename_i m hv
+      have hval := hG.seqval ts m hm
+      have hlt : ts < (s.mem .seq).length := (List.getElem?_eq_some_iff.mp hm).1
+      simp only [RInv, hp] at hrd
+      obtain ⟨r1, r2, r3⟩ := hrd
+      simp only [upd_same] at hnp
+      by_cases h1 : (s.thr t).loc.sq = ts
+      · by_cases h2 : chk (s.thr t).loc.base (s.thr t).loc.bits = true
+        · simp [Local.feedLoad, hp, hval, h1, h2]
+        · simp [Local.feedLoad, hp, hval, h1, h2, RInv] at hnp
+      · simp [Local.feedLoad, hp, hval, h1, Pc.inSnap, nOf]; omega
+
+theorem solo_bound {chk : Nat → Nat → Bool} (t : Nat) (tss : List Nat) : ∀ (s s' : State), Inv chk s →
+    (s.thr t).loc.pc.inSnap = true → run chk s (tss.map (.run t ·)) = some s' →
+    (s'.thr t).loc.pc.inSnap = true → tss.length + soloMeasure s' t ≤ soloMeasure s t ∧ s'.mem = s.mem := by
+  induction tss with
+  | nil => intro s s' _ _ h _; simp [run] at h; subst h; simp
+  | cons ts tss ih =>
+    intro s s' hI hpc h hpc'
+    simp only [List.map_cons, run] at h
+    cases hst : step chk s (.run t ts) with
+    | none => simp [hst] at h
+    | some s1 =>
+      simp [hst] at h
+      obtain ⟨hmem, hlt, hor⟩ := solo_step hI t ts hpc hst
+      rcases hor with hret | hin
+      · -- the reader has returned: no further step of `t` is enabled
+        exfalso
+        cases tss with
+        | nil => simp [run] at h; subst h; simp [hret, Pc.inSnap] at hpc'
+        | cons ts2 rest =>
+          simp only [List.map_cons, run] at h
+          have : step chk s1 (.run t ts2) = none := by
+            rw [step_none_iff]; left; simp [Local.next, hret]
+          simp [this] at h
+      · obtain ⟨h1, h2⟩ := ih s1 s' (inv_step chk s s1 _ hI hst) hin h hpc'
+        exact ⟨by simp; omega, by rw [h2, hmem]⟩
+
+/-- A reader is never stuck: reading the latest message is always allowed. -/
+theorem solo_progress {chk : Nat → Nat → Bool} {s : State} (hI : Inv chk s) (t : Nat)
+    (hpc : (s.thr t).loc.pc.inSnap = true) :
+    ∃ ts s', step chk s (.run t ts) = some s' := by
+  have hT := hI.t t
+  obtain ⟨l, o, hnx⟩ := (snapshot_no_lock_aux chk _ hpc).1
+  refine ⟨(s.mem l).length - 1, ?_⟩
+  have hne : step chk s (.run t ((s.mem l).length - 1)) ≠ none := by
+    rw [Ne, step_none_iff]
+    intro h
+    rcases h with h | ⟨h, _⟩ | ⟨l', o', h, hbad⟩
+    · rw [hnx] at h; cases h
+    · simp [Local.next, h] at hnx
+    · rw [hnx] at h; injection h with h1 h2; subst h1
+      apply hbad; have := hT.wfv l; omega
+  cases hst : step chk s (.run t ((s.mem l).length - 1)) with
+  | none => exact absurd hst hne
+  | some s' => exact ⟨s', rfl⟩
+
+theorem retry_publish {chk : Nat → Nat → Bool} {s s' : State} (hI : Inv chk s) (t ts : Nat)
+    (hpc : (s.thr t).loc.pc = .sSeq2) (hs : step chk s (.run t ts) = some s')
+    (hretry : (s'.thr t).loc.pc = .sV) :
+    (s.thr t).loc.sq < ts ∧ ts < (s.mem .seq).length ∧ (s'.thr t).loc.sq = ts ∧ s'.mem = s.mem := by
+  have hT := hI.t t
+  have hrd := hT.rd
+  simp only [RInv, hpc] at hrd
+  obtain ⟨r1, r2, r3⟩ := hrd
+  simp only [step, Local.next, hpc] at hs
+  cases hm : (s.mem .seq)[ts]? <;> simp only [hm] at hs
+  · simp at hs
+  · split at hs <;> simp at hs
+    subst hs
+    rename_i m hv
+    have hval := hI.g.seqval ts m hm
+    have hlt : ts < (s.mem .seq).length := (List.getElem?_eq_some_iff.mp hm).1
+    by_cases h1 : (s.thr t).loc.sq = ts
+    · by_cases h2 : chk (s.thr t).loc.base (s.thr t).loc.bits = true <;>
+        simp [Local.feedLoad, hpc, hval, h1, h2] at hretry
+    · simp [Local.feedLoad, hpc, hval, h1]; omega
+
 end Woodpile.Abt.RA
